@@ -141,3 +141,345 @@ def oracle_c12(ctx, focus):
     ctx.samples["c12"] = [{"ops": reqs[len(reqs) // 3].split("\t")[1], "answer": impl[len(reqs) // 3][:200]}]
     return {"evaluations": n, "distinct_nontrivial": len(set(impl)), "failures": failures,
             "rule": "every S-ds operation sequence; distinct = distinct final answers"}
+
+
+# ------------------------------------------------------------------------------------------------
+# specification-driven oracles (C01, C04, C05, C08, C16): inputs and expectations come from the Lean
+# spellers (`gen` requests answered by the driver from T2N/Spec, not from the model of the code)
+
+def run_gen(ctx, tag, lines):
+    reqp = ctx.path(tag + ".greq")
+    with open(reqp, "w", encoding="utf-8") as f:
+        for l in lines:
+            f.write(l + "\n")
+    outp = ctx.path(tag + ".gout")
+    rc, err = t2nlib.run_exec(t2nlib.DRIVER_BIN, reqp, outp, args=("--cc", t2nlib.ensure_cc_table()))
+    if rc != 0:
+        raise RuntimeError("driver failed: " + err)
+    out = open(outp, encoding="utf-8").read().split("\n")
+    if out and out[-1] == "":
+        out.pop()
+    assert len(out) == len(lines), (len(out), len(lines))
+    return out
+
+
+CONTEXT = {
+    "en": ("we saw", "cats there"), "fr": ("nous avons vu", "chats hier"), "es": ("vimos", "gatos ayer"),
+    "pt": ("vimos", "gatos ontem"), "it": ("abbiamo visto", "gatti ieri"), "de": ("wir sahen", "Katzen dort"),
+    "nl": ("wij zagen", "katten daar"),
+}
+
+BOUNDARY = [1, 2, 7, 9, 10, 11, 12, 15, 16, 17, 19, 20, 21, 22, 28, 30, 31, 38, 40, 60, 61, 70, 71, 77, 80, 81, 88, 90,
+            91, 99, 100, 101, 110, 111, 115, 120, 121, 200, 300, 500, 700, 900, 999, 800, 880]
+
+
+def card_numbers(tier, seed, lang_idx):
+    rng = SplitMix64(seed * 7919 + lang_idx)
+    out = []
+    small = 3000 if tier != "thorough" else 100000
+    for n in range(small):
+        out.append((n, 0))
+        out.append((n, 1 + rng.below(10 ** 6)))
+    for g in range(1, 1000):
+        for sc in (10 ** 3, 10 ** 6, 10 ** 9):
+            out.append((g * sc, 0))
+            out.append((g * sc + rng.below(sc), 1 + rng.below(10 ** 6)))
+    for a in BOUNDARY:
+        for b in BOUNDARY:
+            out.append((a * 1000 + b, 1 + rng.below(10 ** 6)))
+            if tier == "thorough" or rng.chance(1, 3):
+                out.append((a * 10 ** 6 + b, 1 + rng.below(10 ** 6)))
+                out.append((a * 10 ** 9 + b * 10 ** 3, 1 + rng.below(10 ** 6)))
+                out.append((a * 10 ** 9 + b * 10 ** 6 + a * 1000 + b, 1 + rng.below(10 ** 6)))
+    for _ in range(4000 if tier != "thorough" else 200000):
+        n = rng.below(10 ** 12)
+        if rng.chance(1, 3):
+            # sparse numbers: zero out some groups
+            gs = [rng.below(1000) if rng.chance(1, 2) else 0 for _ in range(4)]
+            n = gs[0] * 10 ** 9 + gs[1] * 10 ** 6 + gs[2] * 10 ** 3 + gs[3]
+        out.append((n, rng.below(10 ** 6)))
+    return out
+
+
+def _spec_cases(ctx, tag, genlines):
+    """run gen lines; return list of (genline, phrase, expected) skipping '-' (not spelled)"""
+    outs = run_gen(ctx, tag, genlines)
+    cases = []
+    for g, o in zip(genlines, outs):
+        if o in ("-", "no-lang", "bad-gen") or "|" not in o:
+            continue
+        ph, exp = o.split("|", 1)
+        cases.append((g, unesc(ph), exp))
+    return cases
+
+
+def _check_val_and_text(ctx, tag, lang, cases, thr="0000000000000000", with_text=True, expect_ordinal=None):
+    """cases: (genline, phrase, expected_escaped). Checks validation and in-sentence rewriting."""
+    pre, suf = CONTEXT[lang]
+    reqs = []
+    for (g, ph, exp) in cases:
+        reqs.append("val\t%s\t%s" % (lang, esc(ph)))
+        if with_text:
+            reqs.append("occ\t%s\t%s\t%s" % (lang, thr, esc(pre + " " + ph + " " + suf)))
+            reqs.append("text\t%s\t%s\t%s" % (lang, thr, esc(pre + " " + ph + " " + suf)))
+    outs = run_impl(ctx, tag, reqs)
+    failures = []
+    step = 3 if with_text else 1
+    for i, (g, ph, exp) in enumerate(cases):
+        v = outs[i * step]
+        if v != "OK:" + exp:
+            failures.append(fail(ph, "validate -> " + unesc(v), unesc(exp), [reqs[i * step]], lang=lang, gen=g, what="validate"))
+            continue
+        if with_text:
+            occ = outs[i * step + 1]
+            txt = outs[i * step + 2]
+            want = esc(pre + " " + unesc(exp) + " " + suf)
+            if txt != want:
+                failures.append(fail(ph, "rewrite -> " + unesc(txt), unesc(want), [reqs[i * step + 2]], lang=lang, gen=g, what="rewrite"))
+                continue
+            occs = [o for o in occ.split("|")[0].split(",") if o]
+            if len(occs) != 1:
+                failures.append(fail(ph, "occurrences: " + occ.split("|")[0], "exactly one occurrence", [reqs[i * step + 1]], lang=lang, gen=g, what="split"))
+                continue
+            f = occs[0].split(":")
+            if expect_ordinal is not None and f[2] != ("1" if expect_ordinal else "0"):
+                failures.append(fail(ph, "is_ordinal=" + f[2], "is_ordinal=%d" % expect_ordinal, [reqs[i * step + 1]], lang=lang, gen=g, what="flag"))
+    return failures, len(reqs)
+
+
+def oracle_c01(ctx, focus, langs=None):
+    failures, n, distinct = [], 0, set()
+    for li, lang in enumerate(langs or LANGS):
+        nums = card_numbers(ctx.tier, ctx.seed, li)
+        gl = ["gen\tcard\t%s\t%d\t%d" % (lang, n_, s) for (n_, s) in nums]
+        cases = _spec_cases(ctx, "c01" + lang, gl)
+        # text-level check on a third of the cases
+        a = [c for i, c in enumerate(cases) if i % 3 == 0]
+        b = [c for i, c in enumerate(cases) if i % 3 != 0]
+        f1, n1 = _check_val_and_text(ctx, "c01t" + lang, lang, a, with_text=True, expect_ordinal=0)
+        f2, n2 = _check_val_and_text(ctx, "c01v" + lang, lang, b, with_text=False)
+        failures += f1[:30] + f2[:30]
+        n += n1 + n2
+        distinct |= {(lang, c[1]) for c in cases}
+        if cases:
+            ctx.samples.setdefault("c01", []).append({"lang": lang, "phrase": cases[len(cases) // 2][1], "expected": unesc(cases[len(cases) // 2][2])})
+    return {"evaluations": n, "distinct_nontrivial": len(distinct), "failures": failures,
+            "rule": "spelled cardinals from the Lean spec (all n<3000 std+random variant, every group at every scale, boundary pairs, random n<10^12); distinct = distinct phrases"}
+
+
+def ord_cases(tier, seed, lang, ordmax, ninfl):
+    rng = SplitMix64(seed * 104729 + len(lang) + ordmax)
+    ranks = list(range(1, min(ordmax, 1500 if tier != "thorough" else 20000) + 1))
+    if ordmax > 3000:
+        for _ in range(3000 if tier != "thorough" else 100000):
+            ranks.append(1 + rng.below(ordmax))
+        ranks += [k * 1000 for k in (1, 2, 3, 10, 11, 21, 100, 101, 200, 999, 1000)] + [k * 100 for k in range(1, 100)]
+    out = []
+    for r in ranks:
+        if r > ordmax:
+            continue
+        for i in range(ninfl):
+            if tier == "thorough" or i == 0 or rng.chance(1, 2):
+                out.append((r, rng.below(10 ** 6) if rng.chance(1, 2) else 0, i))
+    return out
+
+
+ORD_SPEC = {"en": (10 ** 6, 2), "fr": (10 ** 6, 6), "es": (1999, 5), "pt": (1999, 4), "it": (10 ** 6, 4),
+            "de": (10 ** 6, 5), "nl": (10 ** 6, 1)}
+
+
+def oracle_c04(ctx, focus, langs=None):
+    failures, n, distinct = [], 0, set()
+    for lang in (langs or LANGS):
+        ordmax, ninfl = ORD_SPEC[lang]
+        gl = ["gen\tord\t%s\t%d\t%d\t%d" % (lang, r, s, i) for (r, s, i) in ord_cases(ctx.tier, ctx.seed, lang, ordmax, ninfl)]
+        cases = _spec_cases(ctx, "c04" + lang, gl)
+        a = [c for i, c in enumerate(cases) if i % 2 == 0]
+        b = [c for i, c in enumerate(cases) if i % 2 == 1]
+        f1, n1 = _check_val_and_text(ctx, "c04t" + lang, lang, a, with_text=True, expect_ordinal=1)
+        f2, n2 = _check_val_and_text(ctx, "c04v" + lang, lang, b, with_text=False)
+        # value = n: checked on the occurrence of the text-level cases
+        failures += f1[:30] + f2[:30]
+        n += n1 + n2
+        distinct |= {(lang, c[1]) for c in cases}
+        if cases:
+            ctx.samples.setdefault("c04", []).append({"lang": lang, "phrase": cases[len(cases) // 2][1], "expected": unesc(cases[len(cases) // 2][2])})
+    return {"evaluations": n, "distinct_nontrivial": len(distinct), "failures": failures,
+            "rule": "spelled ordinals (all ranks up to 1500 + random ranks up to the language's range) x inflections; distinct = distinct phrases"}
+
+
+def oracle_c05(ctx, focus, langs=None):
+    failures, n, distinct = [], 0, set()
+    for li, lang in enumerate(langs or LANGS):
+        rng = SplitMix64(ctx.seed * 31337 + li)
+        gl = []
+        ints = [0, 1, 2, 9, 10, 12, 21, 80, 99, 100, 101, 1000, 1999, 2020, 10 ** 6, 123456789]
+        fr3 = ["%d" % d for d in range(10)] + ["%02d" % d for d in range(100)] + ["%03d" % d for d in range(0, 1000, 7)]
+        for i_ in ints:
+            for d in (fr3 if ctx.tier == "thorough" else fr3[::3]):
+                gl.append("gen\tdec\t%s\t%d\t%d\t%s" % (lang, i_, 0, d))
+        for _ in range(3000 if ctx.tier != "thorough" else 100000):
+            k = 1 + rng.below(6)
+            d = "".join(str(rng.below(10)) if rng.chance(2, 3) else "0" for _ in range(k))
+            gl.append("gen\tdec\t%s\t%d\t%d\t%s" % (lang, rng.below(10 ** 9) if rng.chance(1, 2) else rng.below(1000), rng.below(10 ** 6), d))
+        cases = _spec_cases(ctx, "c05" + lang, gl)
+        pre, suf = CONTEXT[lang]
+        reqs = []
+        for (g, ph, exp) in cases:
+            th = rng.choice(["0000000000000000", t2nlib.thr_bits(10.0), t2nlib.thr_bits(float("inf"))])
+            reqs.append("occ\t%s\t%s\t%s" % (lang, th, esc(pre + " " + ph + " " + suf)))
+            reqs.append("text\t%s\t%s\t%s" % (lang, th, esc(pre + " " + ph + " " + suf)))
+        outs = run_impl(ctx, "c05" + lang, reqs)
+        for i, (g, ph, exp) in enumerate(cases):
+            want = esc(pre + " " + unesc(exp) + " " + suf)
+            occs = [o for o in outs[2 * i].split("|")[0].split(",") if o]
+            if outs[2 * i + 1] != want:
+                failures.append(fail(ph, "rewrite -> " + unesc(outs[2 * i + 1]), unesc(want), [reqs[2 * i + 1]], lang=lang, gen=g, what="rewrite"))
+            elif len(occs) != 1:
+                failures.append(fail(ph, "occurrences " + outs[2 * i], "one occurrence", [reqs[2 * i]], lang=lang, gen=g, what="split"))
+            else:
+                f = occs[0].split(":")
+                expv = t2nlib.f64bits(float(unesc(exp).replace(",", ".")))
+                if f[3] != expv or f[2] != "0":
+                    failures.append(fail(ph, "value bits %s ordinal %s" % (f[3], f[2]), "value %s, not ordinal" % expv, [reqs[2 * i]], lang=lang, gen=g, what="value"))
+        n += len(reqs)
+        distinct |= {(lang, c[1]) for c in cases}
+        # separator alone / nothing usable after
+        sepreqs, sepwant = [], []
+        gl2 = ["gen\tdec\t%s\t%d\t0\t5" % (lang, k) for k in (3, 21)]
+        for (g, ph, exp) in _spec_cases(ctx, "c05s" + lang, gl2):
+            words = ph.split(" ")
+            sepw = words[-2]
+            intp = " ".join(words[:-2])
+            intd = unesc(exp).replace(",", ".").split(".")[0]
+            for text, want in ((sepw + " " + suf, sepw + " " + suf),                # no number before
+                               (pre + " " + sepw + " " + words[-1], None),           # separator after a non-number: stays a word
+                               (intp + " " + sepw + " " + suf, intd + " " + sepw + " " + suf),   # nothing usable after
+                               (intp + " " + sepw, intd + " " + sepw)):
+                sepreqs.append("text\t%s\t0000000000000000\t%s" % (lang, esc(text)))
+                sepwant.append((text, want, sepw))
+        souts = run_impl(ctx, "c05s" + lang, sepreqs)
+        for r, o, (text, want, sepw) in zip(sepreqs, souts, sepwant):
+            got = unesc(o)
+            if want is not None and got != want:
+                failures.append(fail(text, got, want, [r], lang=lang, what="separator-alone"))
+            if want is None and sepw not in got:
+                failures.append(fail(text, got, "separator word kept", [r], lang=lang, what="separator-alone"))
+        n += len(sepreqs)
+        if cases:
+            ctx.samples.setdefault("c05", []).append({"lang": lang, "phrase": cases[len(cases) // 2][1], "expected": unesc(cases[len(cases) // 2][2])})
+    return {"evaluations": n, "distinct_nontrivial": len(distinct), "failures": failures[:60],
+            "rule": "integer x fraction-digit-string grid + random (n<10^9, 1-6 digits) at thresholds 0/10/inf; separator-alone cases"}
+
+
+def oracle_c16(ctx, focus, langs=None):
+    failures, n, distinct = [], 0, set()
+    for li, lang in enumerate(langs or LANGS):
+        rng = SplitMix64(ctx.seed * 7 + li + 99)
+        gl = ["gen\tzeros\t%s\t1\t0\t0" % lang]
+        nums = [x for x in card_numbers("quick", ctx.seed, li) if 0 < x[0] < 10 ** 9]
+        step = 1 if ctx.tier == "thorough" else 4
+        for idx, (n_, s) in enumerate(nums):
+            if idx % step:
+                continue
+            k = rng.below(7)
+            gl.append("gen\tzeros\t%s\t%d\t%d\t%d" % (lang, k, n_, s))
+        cases = _spec_cases(ctx, "c16" + lang, gl)
+        # `zeros 1 0` is "zero zero" -> not in the property; replace by the lone zero
+        cases = [c for c in cases if not c[0].endswith("\t1\t0\t0")]
+        f1, n1 = _check_val_and_text(ctx, "c16" + lang, lang, cases, with_text=True)
+        failures += f1[:30]
+        n += n1
+        # lone zero
+        z = _spec_cases(ctx, "c16z" + lang, ["gen\tzeros\t%s\t0\t0\t0" % lang])
+        f2, n2 = _check_val_and_text(ctx, "c16z" + lang, lang, z, with_text=True)
+        failures += f2
+        n += n2
+        # zero after a number
+        gl3 = ["gen\tzeroafter\t%s\t%d\t%d" % (lang, n_, s) for idx, (n_, s) in enumerate(nums) if idx % (step * 5) == 0]
+        za = _spec_cases(ctx, "c16a" + lang, gl3)
+        reqs = ["text\t%s\t0000000000000000\t%s" % (lang, esc(ph)) for (g, ph, exp) in za]
+        outs = run_impl(ctx, "c16a" + lang, reqs)
+        for r, o, (g, ph, exp) in zip(reqs, outs, za):
+            if o != exp:
+                failures.append(fail(ph, unesc(o), unesc(exp), [r], lang=lang, gen=g, what="zero-after"))
+        n += len(reqs)
+        distinct |= {(lang, c[1]) for c in cases + za}
+        if cases:
+            ctx.samples.setdefault("c16", []).append({"lang": lang, "phrase": cases[len(cases) // 2][1], "expected": unesc(cases[len(cases) // 2][2])})
+    return {"evaluations": n, "distinct_nontrivial": len(distinct), "failures": failures[:60],
+            "rule": "k in [0,6] zeros x cardinals n<10^9 (C01 input sets), lone zero, zero after a number"}
+
+
+def oracle_c08(ctx, focus, langs=None):
+    failures, n, distinct = [], 0, set()
+    for li, lang in enumerate(langs or LANGS):
+        rng = SplitMix64(ctx.seed * 13 + li)
+        gl = []
+        for a in range(100):
+            for b in range(100):
+                for j in (0, 1):
+                    gl.append("gen\tpair\t%s\t%d\t%d\t%d" % (lang, a, b, j))
+        outs = run_gen(ctx, "c08" + lang, gl)
+        cases = []
+        for g, o in zip(gl, outs):
+            if "|" not in o:
+                continue
+            ph, allowed = o.split("|", 1)
+            cases.append((g, unesc(ph), [unesc(x) for x in allowed.split(";")]))
+        reqs = ["text\t%s\t0000000000000000\t%s" % (lang, esc(ph)) for (g, ph, al) in cases]
+        res = run_impl(ctx, "c08" + lang, reqs)
+        for r, o, (g, ph, al) in zip(reqs, res, cases):
+            if unesc(o) not in al:
+                failures.append(fail(ph, unesc(o), " | ".join(al), [r], lang=lang, gen=g, what="pair"))
+        n += len(reqs)
+        distinct |= {(lang, c[1]) for c in cases}
+        # dictation
+        maxlen = 5 if ctx.tier != "thorough" else 6
+        digs = []
+        for L in range(1, maxlen + 1):
+            if L <= 4:
+                digs += ["%0*d" % (L, x) for x in range(10 ** L)]
+            else:
+                digs += ["%0*d" % (L, rng.below(10 ** L)) for _ in range(6000)]
+        digs += ["".join(str(rng.below(10)) if rng.chance(1, 2) else "0" for _ in range(6 + rng.below(7))) for _ in range(2000)]
+        gl2 = ["gen\tdict\t%s\t%s" % (lang, d) for d in digs]
+        dc = _spec_cases(ctx, "c08d" + lang, gl2)
+        reqs = ["text\t%s\t0000000000000000\t%s" % (lang, esc(ph)) for (g, ph, exp) in dc]
+        res = run_impl(ctx, "c08d" + lang, reqs)
+        for r, o, (g, ph, exp) in zip(reqs, res, dc):
+            if o != exp:
+                failures.append(fail(ph, unesc(o), unesc(exp), [r], lang=lang, gen=g, what="dictation"))
+        n += len(reqs)
+        distinct |= {(lang, c[1]) for c in dc}
+        if cases:
+            ctx.samples.setdefault("c08", []).append({"lang": lang, "phrase": cases[2143][1], "allowed": cases[2143][2]})
+    return {"evaluations": n, "distinct_nontrivial": len(distinct), "failures": failures[:80],
+            "rule": "all pairs (a,b) in [0,99]^2 x {space, conjunction}; all digit strings of length <= 4, sampled longer ones"}
+
+
+if __name__ == "__main__":
+    # ad-hoc: python3 tools/oracles.py c01 fr [tier] [seed]
+    import tempfile, shutil, json, props
+    name, lang = sys.argv[1], sys.argv[2]
+    tier = sys.argv[3] if len(sys.argv) > 3 else "quick"
+    seed = int(sys.argv[4]) if len(sys.argv) > 4 else 1
+    ok, msg = t2nlib.build_harness()
+    if not ok:
+        print(msg); sys.exit(2)
+    work = tempfile.mkdtemp(prefix="orc_", dir=t2nlib.BUILD)
+    try:
+        ctx = props.Ctx("adhoc", tier, seed, work)
+        res = globals()["oracle_" + name](ctx, [], langs=[lang])
+        fs = res.pop("failures")
+        print(json.dumps(res, ensure_ascii=False))
+        by = {}
+        for f in fs:
+            by.setdefault(f.get("what"), []).append(f)
+        for k, v in by.items():
+            print("== %s: %d failures (showing up to 15)" % (k, len(v)))
+            for f in v[:15]:
+                print("  input=%r observed=%r expected=%r" % (f["input"], f["observed"], f["expected"]))
+        print("failures=%d" % len(fs))
+    finally:
+        shutil.rmtree(work, ignore_errors=True)
